@@ -174,7 +174,7 @@ def emptiness_atom(specs):
     return atom
 
 
-def must_pass_unless_noop(facts, body, it, sites, noop_when_empty, start=0):
+def must_pass_unless_noop(facts, body, it, sites, noop_when_empty, start=0, only_field=None):
     """Every path passes one of `sites` — except paths that are only taken when an operand whose emptiness makes the whole
     operation a no-op is empty (`if other.is_empty() { return }` in front of a merge, `if clock.is_empty() { return }` in front of a
     reset) and that leave self untouched.  noop_when_empty = {name: (param, path prefix)}."""
@@ -198,11 +198,48 @@ def must_pass_unless_noop(facts, body, it, sites, noop_when_empty, start=0):
         for (bb, _i), w in list(it.muts.items()) + list(it.writes.items()):
             if bb in skipping and w.loc[0][0] in ('P', 'O'):
                 tgt = loc_target(it, w.loc)
+                if tgt is not None and tgt[0] == 1 and only_field is not None and tuple(tgt[1][:1]) != (only_field,):
+                    continue        # a clause about one field: what the skipping path does to the other fields is their clauses' business
                 if tgt is not None and tgt[0] == 1:
                     # .. unless the write is itself on a path that still reaches a site
                     if any(r_ in rcw._reach(bb, set(sites)) for r_ in rcw.return_blocks()):
                         return False
     return True
+
+
+def is_empty_literal(t):
+    """t is an empty value spelled out: `X::new()`, `Default::default()`, `zero()`, `vec![]`, 0, or an aggregate of such."""
+    from ..terms import drop_lv
+    t = drop_lv(t)
+    if t[0] == 'const':
+        return t[1] in (0, '()', None)
+    if t[0] == 'call' and call_name(t) in ('new', 'default', 'zero', 'with_capacity') and all(drop_lv(a_)[0] == 'const' for a_ in t[2]):
+        return True
+    if t[0] == 'agg':
+        return all(is_empty_literal(v_) for _n, v_ in t[3])
+    return False
+
+
+def general_ret(facts, body, containers):
+    """A read accessor with a shortcut for the empty state (`if self.vals.is_empty() { return <empty answer> }`): the value returned
+    in the world where the named containers are not empty, provided that it is one return site, that the shortcut was really
+    decided by an emptiness test, and that every answer given in an empty world is an empty literal.  containers = {name:
+    (param, path prefix)}.  None when the function has no such shape (the caller then judges the plain return value)."""
+    from ..ordset import Reach, Evaluator
+    it = interp(facts, body)
+    atom = emptiness_atom(containers)
+    ev = Evaluator(facts, bool_atom=atom, assumption={n: False for n in containers})
+    rc = Reach(facts, body, ev)
+    sites = [(k, w) for k, w in sorted(it.ret_assigns.items()) if k[0] in rc.reachable]
+    if len(sites) != 1 or not ev.hits or len(it.ret_assigns) < 2:
+        return None
+    gk, gw = sites[0]
+    for k, w in it.ret_assigns.items():
+        if k == gk:
+            continue
+        if not all(is_empty_literal(a_) for a_ in phi_alts(w.val)):
+            return None
+    return gw.val
 
 
 def err_verdict_escapes(facts, body, it, call_bbs, base_atom=None, assumption=None, frame=None):
